@@ -28,9 +28,11 @@ pub enum Defect {
     UnterminatedString,
     UnterminatedChar,
     TextAfterString,
+    BareDirective,
+    TruncatedStatement,
 }
 
-pub const DEFECTS: [Defect; 15] = [
+pub const DEFECTS: [Defect; 17] = [
     Defect::WrongOperandType,
     Defect::MissingLastOperand,
     Defect::ExtraOperand,
@@ -46,6 +48,8 @@ pub const DEFECTS: [Defect; 15] = [
     Defect::UnterminatedString,
     Defect::UnterminatedChar,
     Defect::TextAfterString,
+    Defect::BareDirective,
+    Defect::TruncatedStatement,
 ];
 
 impl Defect {
@@ -66,6 +70,8 @@ impl Defect {
             Defect::UnterminatedString => "unterminated-string",
             Defect::UnterminatedChar => "unterminated-char",
             Defect::TextAfterString => "text-after-closing-quote",
+            Defect::BareDirective => "directive-without-operands",
+            Defect::TruncatedStatement => "statement-cut-after-a-token",
         }
     }
     /// The malformed replacement for an instruction line `orig` (already trimmed of comments).
@@ -110,6 +116,19 @@ impl Defect {
             Defect::UnterminatedString => format!("{indent}.asciz \"never closed"),
             Defect::UnterminatedChar => format!("{indent}li t0, 'a"),
             Defect::TextAfterString => format!("{indent}.asciz \"abc\"xyz"),
+            Defect::BareDirective => format!("{indent}{}", rng.pick(&[".word", ".byte", ".half", ".asciz", ".string", ".space", ".align", ".globl", ".include", ".eqv", ".dword", ".float"])),
+            Defect::TruncatedStatement => {
+                let statement = *rng.pick(&["addi t0, t1, 5", "lw a0, 8(sp)", "beq a0, a1, main", "jal ra, main", ".word 1, 2, 3", ".asciz \"end\"", "sw t0, 4(sp)", "li t3, 77", "csrrw t0, uscratch, t1", "la t0, main", "jalr ra, 0(t0)"]);
+                let toks: Vec<&str> = statement.split(' ').collect();
+                let cut = 1 + rng.below(toks.len() - 1);
+                let mut t = toks[..cut].join(" ");
+                if rng.chance(0.3) {
+                    // also cut inside the last token kept (an open parenthesis, half a number)
+                    let cs: Vec<char> = t.chars().collect();
+                    t = cs[..cs.len() - rng.below(2.min(cs.len() - 1) + 1)].iter().collect();
+                }
+                format!("{indent}{t}")
+            }
         }
     }
 }
@@ -158,7 +177,7 @@ pub fn run(ctx: &Ctx) -> i32 {
     let mut rep = Report::new(
         ctx,
         "files of one statement per line (generated programs incl. data sections, with or without a header comment / final newline); one line is replaced by a malformed one \
-         (15 defect kinds: wrong / missing / extra operand, unknown mnemonic or directive, stray + ; @ $ :, non-ASCII letter, lone CR, unterminated string or char, text after a closing quote) at the first, a middle or \
+         (17 defect kinds: wrong / missing / extra operand, unknown mnemonic or directive, stray + ; @ $ :, non-ASCII letter, lone CR, unterminated string or char, text after a closing quote, a directive without operands, a statement cut after any token) at the first, a middle or \
          the last line, or two consecutive lines; also whole-file CR/LF endings and a final line truncated after each token with and without newline. Oracle: (coverage) every non-blank, non-comment line has a node starting on it \
          (or inside a multi-line data list) or a parse error located on it; (containment) all other lines yield exactly the nodes they yield when the bad line is blank, and no errors. \
          distinct_nontrivial = distinct mutated files judged",
